@@ -407,6 +407,12 @@ func TestVerifC18(t *testing.T) {
 	if vh.Thorough() {
 		cases = vh.EnvInt("VERIF_C18_CASES", 1500)
 	}
+	// directed (finding F44, repaired by 158010c): a third-party rewrap alone; afterwards the OLD wrapping token's
+	// entry and both cubbyhole keys must be gone (`wfinal`), and the new token must reveal the payload exactly once
+	for i, wrapped := range c18Wrapped {
+		c18RunCase(t, out, wrapped, []string{"rewrap3"}, "sequential", rng.Fork(1<<42+uint64(i)))
+	}
+	c18RunCase(t, out, "secret", []string{"rewrap3", "unwrap3"}, "sequential", rng.Fork(1<<43))
 	for ci := 0; ci < cases; ci++ {
 		r := rng.Fork(uint64(ci))
 		wrapped := c18Wrapped[r.Intn(len(c18Wrapped))]
